@@ -20,7 +20,7 @@ def correspondence(ctx):
             if len(reps[v]) < 3:
                 reps[v].append(s_)
     main = ['L', 'R', 'AL', 'AN', 'EN', 'ES', 'CS', 'ET', 'ON', 'BN', 'NSM', 'WS']
-    alpha = [BIDI[c] for c in main]
+    alpha = xa(ctx, [BIDI[c] for c in main], 4)
     maxlen = 4 if ctx.tier == 'quick' else 5
     cases = []
     for s in all_strings(alpha, maxlen, 1):
